@@ -19,7 +19,7 @@ DRIVERS = {
     'utf8': ['decoder', 'utils'], 'input': ['decoder'], 'utils': ['utils', 'autocomplete', 'editor'],
     'token': ['token'], 'arguments': ['token'], 'command': ['token', 'cli'], 'help': ['token', 'cli'],
     'editor': ['editor', 'cli'], 'history': ['history', 'cli'], 'autocomplete': ['autocomplete', 'cli'],
-    'tmpl_autocomplete': ['cli'], 'tmpl_group_autocomplete': ['cli'], 'writer': ['writer', 'cli'], 'cli': ['cli'], 'builder': ['cli'], 'service': ['cli'],
+    'tmpl_autocomplete': ['cli'], 'tmpl_group_autocomplete': ['cli'], 'tmpl_group_help': ['derive_fail', 'derive_help', 'cli'], 'writer': ['writer', 'cli'], 'cli': ['cli'], 'builder': ['cli'], 'service': ['cli'],
     'buffer': ['editor', 'history'], 'codes': ['cli'],
 }
 # drivers that accept a property filter
@@ -166,6 +166,8 @@ def attributed_functions(res):
         return ['autocomplete::Autocompletion::merge_autocompletion', 'utils::common_prefix_len']
     if d == 'writer':
         return ['writer::Writer::']
+    if d in ('derive_fail', 'derive_help'):
+        return ['tmpl_group_help::', 'tmpl_group_autocomplete::', 'tmpl_autocomplete::']
     return []
 
 
